@@ -59,7 +59,7 @@ TQuiet ==
 
 TOther ==
   /\ l <= Len(Rec)
-  /\ Rec[l].ev \in {"recent", "save", "restart", "disconnect", "reconnect", "handled", "abandon", "broadcast"}
+  /\ Rec[l].ev \in {"recent", "save", "restart", "disconnect", "reconnect", "handled", "abandon", "broadcast", "chain", "settle_chain", "settled", "mine_skipped"}
   /\ l' = l + 1 /\ Stutter
 
 TraceNext == TOpen \/ TReg \/ TSend \/ TMsg \/ TDeliver \/ TForward \/ TEvent \/ TClaim \/ TFailback
